@@ -18,6 +18,7 @@ func genCase(t *rapid.T) Case {
 	c.TLS = rapid.SampledFrom([]string{"", "empty", "cert", "cert", "cert13", "cert13"}).Draw(t, "tls")
 	c.Client = rapid.SampledFrom([]string{"plain", "ssl", "ssl", "ssl", "ssl-stuffed-same", "ssl-stuffed-after", "ssl-twice", "ssl-inside-tls", "gss-inside-tls", "cancel-first", "cancel-after-ssl", "cancel-in-tls", "garbage-hello", "ssl-idle", "ssl-idle"}).Draw(t, "client")
 	c.Auth = rapid.Bool().Draw(t, "auth")
+	c.ViaFields = rapid.IntRange(0, 3).Draw(t, "via-fields") == 0
 	c.BadPass = c.Auth && rapid.IntRange(0, 3).Draw(t, "wrong-password") == 0
 	switch rapid.IntRange(0, 5).Draw(t, "limit-kind") {
 	case 0:
